@@ -255,7 +255,149 @@ var repeat = fw.Register(&fw.Prop[RepeatCase]{
 	MinLabel: []string{"same-text-different-values"},
 })
 
+// ---------------------------------------------------------------- typed arguments
+//
+// The value of an argument does not depend on the statement it belongs to: statements whose argument the parser
+// reads into a typed form (unique, key, range, length, pattern, must, ...) report the same RFC 6020 value as a
+// description would.  The words of such an argument may be separated by any run of blanks, tabs and line breaks.
+
+type TypedCase struct {
+	Stmt *yg.Stmt `json:"stmt"`
+	Nest int      `json:"nest"`
+	Ends bool     `json:"ends"` // blanks at an end of the value: the verdict on those is C09's subject, the value, if accepted, is not
+}
+
+var typedWords = map[string][]string{
+	"unique":        {"a", "b/c", "x:d/x:e", "k1", "srv/port"},
+	"key":           {"a", "b", "k-1", "name"},
+	"range":         {"1", "..", "5", "|", "10", "..", "max"},
+	"length":        {"0", "..", "4", "|", "8"},
+	"pattern":       {"[a-z]+", "x", "(ab|cd)*", "[0-9]"},
+	"must":          {"../a", "=", "'x y'", "or", "count(b)", ">", "2"},
+	"when":          {"a", "!=", "1", "and", "not(b)"},
+	"path":          {"../a", "/", "b"},
+	"default":       {"one", "two", "3"},
+	"units":         {"km", "/", "h"},
+	"presence":      {"it", "is", "there"},
+	"error-message": {"out", "of", "range"},
+	"error-app-tag": {"too", "big"},
+	"contact":       {"a@b", "c"},
+	"organization":  {"the", "org"},
+	"enum":          {"two", "words", "here"},
+}
+var typedKws = []string{"unique", "unique", "unique", "key", "key", "range", "length", "pattern", "must", "when", "path", "default", "units", "presence", "error-message", "error-app-tag", "contact", "organization", "enum"}
+var typedSeps = []string{" ", " ", "  ", "\t", " \t ", "\n", "\n    ", "\n\t", "\r\n  ", "   \n          ", "\n\n  ", "      "}
+
+func genTyped(t *rapid.T) TypedCase {
+	g := &yg.G{T: t}
+	kw := typedKws[g.Pick(len(typedKws), "kw")]
+	words := typedWords[kw]
+	n := 1 + g.Pick(3, "nwords")
+	if kw == "range" || kw == "length" {
+		n = []int{1, 3, 5, 7}[g.Pick(4, "nrange")]
+		if n > len(words) {
+			n = len(words)
+		}
+	}
+	var toks []string // words and separators in turn
+	for i := 0; i < n; i++ {
+		if i > 0 {
+			toks = append(toks, typedSeps[g.Pick(len(typedSeps), "sep")])
+		}
+		w := words[i%len(words)]
+		if kw != "range" && kw != "length" && kw != "must" && kw != "when" && kw != "path" {
+			w = words[g.Pick(len(words), "word")]
+		}
+		toks = append(toks, w)
+	}
+	c := TypedCase{Nest: g.Pick(3, "nest")}
+	if kw != "enum" && g.Pick(8, "ends") == 0 {
+		c.Ends = true
+		toks = append([]string{typedSeps[g.Pick(len(typedSeps), "lead")]}, toks...)
+		toks = append(toks, typedSeps[g.Pick(len(typedSeps), "trail")])
+	}
+	// the pieces: the tokens are cut into 1-3 quoted pieces at token boundaries
+	s := &yg.Stmt{Kw: kw, T0: leads[g.Pick(len(leads), "lead0")], T1: []string{" ", "  ", "\n    ", "\t", " /* c */ "}[g.Pick(5, "t1")]}
+	cuts := g.Pick(3, "cuts")
+	start := 0
+	for k := 0; k <= cuts && start < len(toks); k++ {
+		end := len(toks)
+		if k < cuts {
+			end = start + 1 + g.Pick(len(toks)-start, "cut")
+		}
+		raw := strings.Join(toks[start:end], "")
+		q := "d"
+		if !strings.Contains(raw, "'") && g.Pick(3, "squote") == 0 {
+			q = "s"
+		}
+		if !strings.ContainsAny(raw, " \t\r\n'") && !strings.Contains(raw, "//") && !strings.Contains(raw, "/*") && len(s.Pieces) == 0 && end == len(toks) && g.Pick(2, "unq") == 0 {
+			q = "u"
+		}
+		s.Pieces = append(s.Pieces, yg.Piece{Q: q, Raw: raw})
+		if len(s.Pieces) > 1 {
+			s.Plus = append(s.Plus, []string{" ", "\n   ", ""}[g.Pick(3, "plus0")], []string{" ", "\n      ", "\t"}[g.Pick(3, "plus1")])
+		}
+		start = end
+	}
+	s.T2 = g.Trivia(s.Pieces[len(s.Pieces)-1].Q == "u", 2)
+	c.Stmt = s
+	return c
+}
+
+func checkTyped(c TypedCase) fw.Outcome {
+	w := c.Stmt
+	for k := 0; k < c.Nest; k++ {
+		w = wrap([]*yg.Stmt{w})
+	}
+	text, infos := yg.Render([]*yg.Stmt{w}, "\n")
+	info := infos[len(infos)-1]
+	out := fw.Outcome{Key: text, Labels: []string{"kw:" + c.Stmt.Kw}}
+	if info.Grey {
+		out.Skip = true
+		return out
+	}
+	var tree *parse.Tree
+	var err error
+	if !fw.WithTimeout(20, func() { tree, err = parse.Parse("t.yang", text, nil) }) {
+		out.Violation = fmt.Sprintf("parse did not return on %q", text)
+		return out
+	}
+	if err != nil {
+		if c.Ends {
+			out.Labels = append(out.Labels, "ends-refused")
+			return out
+		}
+		out.Violation = fmt.Sprintf("valid %s statement rejected: %v\ntext: %q", c.Stmt.Kw, err, text)
+		return out
+	}
+	var nodes []parse.Node
+	preorder(tree.Root, &nodes)
+	n := nodes[len(nodes)-1]
+	if strings.ContainsAny(info.Value, "\t\n") || strings.Contains(info.Value, "  ") {
+		out.NonTrivial = true
+		out.Labels = append(out.Labels, "layout-in-value")
+	}
+	if len(c.Stmt.Pieces) > 1 {
+		out.Labels = append(out.Labels, "concat")
+	}
+	if got := n.Argument().String(); got != info.Value {
+		out.Violation = fmt.Sprintf("%s argument reported as %q, RFC 6020 6.1.3 value is %q\ntext: %q", c.Stmt.Kw, got, info.Value, text)
+	}
+	return out
+}
+
+var typed = fw.Register(&fw.Prop[TypedCase]{
+	ID: "C08", Name: "typed",
+	Rule: "one statement whose argument the parser reads into a typed form (unique, key, range, length, pattern, must, when, path, default, units, presence, error-message, error-app-tag, contact, " +
+		"organization, enum): 1-7 valid words separated by runs of blanks, tabs and line breaks (LF/CRLF, indentation), cut into 1-3 single-/double-quoted pieces joined by '+', nested 0-2 blocks deep; " +
+		"oracle: the reported argument equals the RFC 6020 section 6.1.3 value of the source form, exactly as for a description; a value with blanks at an end may be refused (C09) but not altered; " +
+		"non-trivial = the value holds a tab, a line break or two blanks in a row",
+	Gen: genTyped, Check: checkTyped, Weight: 0.3,
+	MinLabel: []string{"kw:unique", "kw:key", "kw:range", "kw:pattern", "kw:must", "layout-in-value", "concat"},
+})
+
 func TestMain(m *testing.M) { fw.Main(m) }
 
 func TestDecode(t *testing.T) { fw.Run(t, decode) }
 func TestRepeat(t *testing.T) { fw.Run(t, repeat) }
+func TestTyped(t *testing.T)  { fw.Run(t, typed) }
